@@ -239,3 +239,59 @@ func Aliases(a, b interface{}) []string {
 }
 
 func stripIdx(p string) string { return strings.TrimPrefix(p, ".") }
+
+// Scribble overwrites every settable string/bool/int reachable from v (pointers, slices, maps of pointers followed)
+// with sentinels and returns the number of fields written.
+func Scribble(v interface{}) int {
+	n := 0
+	scribble(reflect.ValueOf(v), map[uintptr]bool{}, &n, 0)
+	return n
+}
+
+func scribble(v reflect.Value, seen map[uintptr]bool, n *int, depth int) {
+	if !v.IsValid() || depth > 200 {
+		return
+	}
+	switch v.Kind() {
+	case reflect.Ptr:
+		if v.IsNil() || seen[v.Pointer()] {
+			return
+		}
+		seen[v.Pointer()] = true
+		scribble(v.Elem(), seen, n, depth+1)
+	case reflect.Interface:
+		if !v.IsNil() {
+			scribble(v.Elem(), seen, n, depth+1)
+		}
+	case reflect.Struct:
+		for i := 0; i < v.NumField(); i++ {
+			if v.Type().Field(i).PkgPath != "" { // unexported
+				continue
+			}
+			scribble(v.Field(i), seen, n, depth+1)
+		}
+	case reflect.Slice, reflect.Array:
+		for i := 0; i < v.Len(); i++ {
+			scribble(v.Index(i), seen, n, depth+1)
+		}
+	case reflect.Map:
+		for _, k := range v.MapKeys() {
+			scribble(v.MapIndex(k), seen, n, depth+1)
+		}
+	case reflect.String:
+		if v.CanSet() {
+			v.SetString("☠scribbled")
+			*n++
+		}
+	case reflect.Bool:
+		if v.CanSet() {
+			v.SetBool(!v.Bool())
+			*n++
+		}
+	case reflect.Int, reflect.Int8, reflect.Int16, reflect.Int32, reflect.Int64:
+		if v.CanSet() {
+			v.SetInt(v.Int() + 77)
+			*n++
+		}
+	}
+}
